@@ -439,6 +439,30 @@ def setup_cases(run, exprs, descr):
     n = 10 if run.tier == "quick" else 80
     pre_cands = ["1", "1,2,4", "1,4,3", "4,1", "3", "0", "1,7", "1,4,3,2,5,6",
                  "6,1", "1,1,4", "x", "1,4", "2", "1,-1", "1,5,3", "1,4,3,5"]
+    # user training sets: a complete copy of the shipped one, copies that
+    # lack a feature file / everything but the response, an empty folder
+    ts_src = pathlib.Path(rate.IndentationRater.get_training_set_path())
+    ts_need = sorted(f.name for f in ts_src.glob("train_*.txt")
+                     if "feat_con" in f.name or "response" in f.name)
+    tsd = scratch("user-training-sets")
+    ts_dirs = {}
+    for nm_, drop in [("full", []), ("partial-a", [ts_need[3]]),
+                      ("partial-b", [ts_need[-2]]),
+                      ("response-only", [f for f in ts_need
+                                         if "response" not in f]),
+                      ("empty", list(ts_need))]:
+        dd_ = tsd / f"ts_{nm_}"
+        dd_.mkdir(parents=True, exist_ok=True)
+        for f in ts_need:
+            if f not in drop:
+                shutil.copy(ts_src / f, dd_ / f)
+        ts_dirs[nm_] = str(dd_)
+
+    def ts_complete(ans_):
+        pth = pathlib.Path(ans_)
+        if not pth.exists():
+            pth = ts_src.parent / f"ts_{ans_}"
+        return all((pth / f).is_file() for f in ts_need)
     for i in range(n):
         d = scratch(f"setup-{i}")
         path = d / "cli_profile.cfg"
@@ -461,8 +485,12 @@ def setup_cases(run, exprs, descr):
             "left": rng.choice([[], ["-1.5"], ["0"]]),
             "right": rng.choice([[], ["2.5"], ["0.5"]]),
             "Suppress residuals": rng.choice([[], ["0.75"], ["0"]]),
-            "Select training set": rng.choice([[], ["zef18"],
-                                               ["no_such_set", "zef18"]]),
+            "Select training set": [
+                [], ["zef18"], ["no_such_set", "zef18"],
+                [ts_dirs["full"]], [ts_dirs["partial-a"], ts_dirs["full"]],
+                [ts_dirs["partial-b"]], [ts_dirs["response-only"], "zef18"],
+                [ts_dirs["empty"]], [ts_dirs["partial-a"]]][
+                    i % 9 if i % 2 else rng.randrange(9)],
             "Select rating regressor": rng.sample(
                 ["0", str(len(regs) + 1), "zz"], rng.randint(0, 1))
             + rng.choice([[], [str(rng.randint(1, len(regs)))]]),
@@ -596,6 +624,16 @@ def setup_cases(run, exprs, descr):
         if ts and after["rating training set"] != ts:
             fail(f"training set: answer {ts!r} stored as "
                  f"{after['rating training set']!r}", "C19_setup (training)")
+        if not ts_complete(str(after["rating training set"])):
+            fail("training set: the setup stored "
+                 f"{after['rating training set']!r}, which lacks "
+                 "feature files (attempts "
+                 f"{attempts('Select training set')})",
+                 "C19_setup (training)")
+        for a_ in attempts("Select training set")[:-1]:
+            if a_ and ts_complete(a_):
+                fail(f"training set: complete set {a_!r} was refused",
+                     "C19_setup (training)")
         att = attempts("Select rating regressor")
         acc = att[-1]
         if acc and after["rating regressor"] != regs[int(acc) - 1]:
@@ -617,6 +655,12 @@ def setup_cases(run, exprs, descr):
             if "params_fitted" not in idnt.fit_properties and \
                     idnt.fit_properties.get("success"):
                 fail("batch fit: no parameters fitted", "C19 (fit accepts)")
+            # (the batch fit rates every curve with the profile's rater)
+            rt_ = idnt.rate_quality(
+                training_set=after["rating training set"],
+                regressor=after["rating regressor"])
+            if not (rt_ == -1 or 0 <= rt_ <= 10 or np.isnan(rt_)):
+                fail(f"batch fit: rating {rt_!r}", "C19 (fit accepts)")
         except HarnessTimeout:
             run.count("batch-fit-time-limit")
         except BaseException as e:
